@@ -40,6 +40,24 @@ class Names:
         self.ctor_fn = None
 
 
+def through_local_closure(init, lets):
+    """`fresh("X")` with `let mut fresh = |p| f(p, <set>)` in the same function is the call `f("X", <set>)`"""
+    if not (init["k"] == "Call" and init["func"]["k"] == "Path" and len(init["args"]) == 1 and len(init["func"]["path"]["segs"]) == 1):
+        return init
+    cl = lets.get(init["func"]["path"]["segs"][0])
+    if cl is None or cl["k"] != "Closure" or len(cl["inputs"]) != 1:
+        return init
+    pat = cl["inputs"][0]
+    while pat["k"] == "PType":
+        pat = pat["pat"]
+    body = cl["body"]
+    while body["k"] == "BlockExpr" and len(body["block"]["stmts"]) == 1 and body["block"]["stmts"][0]["k"] == "ExprStmt" and not body["block"]["stmts"][0]["semi"]:
+        body = body["block"]["stmts"][0]["expr"]
+    if pat["k"] != "PIdent" or body["k"] != "Call" or len(body["args"]) != 2 or ident_of(body["args"][0]) != pat["name"]:
+        return init
+    return {"k": "Call", "func": body["func"], "args": [init["args"][0], body["args"][1]]}
+
+
 def analyse_ctor(syn, efile, res, rule):
     """find the struct literal that fills the builder (shorthand fields bound by lets in the same fn)"""
     nm = Names()
@@ -59,8 +77,9 @@ def analyse_ctor(syn, efile, res, rule):
                         # a parameter passed through
                         nm.fields[name] = ("param", name)
                         continue
+                    init = through_local_closure(init, lets)
                     if init["k"] == "Call" and init["func"]["k"] == "Path" and len(init["args"]) == 2 and init["args"][0]["k"] == "Lit" and init["args"][0]["lit"]["t"] == "str":
-                        nm.fields[name] = ("fresh", init["args"][0]["lit"]["v"], path_str(init["func"]), unparse(init["args"][1]))
+                        nm.fields[name] = ("fresh", init["args"][0]["lit"]["v"], path_str(init["func"]), re.sub(r"^&\s*mut\s+", "", unparse(init["args"][1])))
                         nm.fresh_fn = path_str(init["func"])
                     else:
                         txt = unparse(init).replace(" ", "")
@@ -86,7 +105,7 @@ def check_fresh_machinery(ctx, nm, res, rule):
         for st in nm.ctor_fn["body"]["stmts"]:
             if st["k"] == "Let" and st["pat"]["k"] == "PIdent" and st.get("init") is not None:
                 txt = unparse(st["init"]).replace(" ", "")
-                m = re.match(r"^&mut(\w+)\.(\w+)\(\)$", txt)
+                m = re.match(r"^(?:&mut)?(\w+)\.(\w+)\(\)$", txt)
                 if m and any(v[0] == "fresh" and v[3] == st["pat"]["name"] for v in nm.fields.values()):
                     used = (st["pat"]["name"], m.group(2))
     if used is None:
@@ -791,6 +810,10 @@ def is_index(t, name):
     if b[0] == "tuple-elem" and b[2] == 0 and isinstance(b[1], dict) and b[1].get("k") == "ClosureParam":
         # the closure is an argument of map/filter_map on a chain containing enumerate()
         return closure_over_enumerate(t, b[1]["closure"])
+    if b[0] == "tuple-elem" and b[2] == 0 and isinstance(b[1], dict) and b[1].get("k") == "ForItem":
+        # `for (i, x) in <..>.enumerate()`
+        root, chain = method_chain(b[1]["expr"])
+        return bool(chain) and chain[-1][1] == "enumerate"
     if b[0] == "param" and (b[2] or "").strip() == "usize":
         return True
     if b[0] in ("let", "arg") and b[1] is not None and b[1]["k"] == "Path" and ident_of(b[1]) != name:
